@@ -9,3 +9,8 @@ import P2P.Props.C07
 #print axioms P2P.Props.C07.repeated_end_witness
 #print axioms P2P.Props.C07.drop_water_witness
 #print axioms P2P.Props.C07.model_witness
+#print axioms P2P.Props.C07.one_ter_is_enough
+#print axioms P2P.Props.C07.blank_record_chain_letter
+#print axioms P2P.Props.C07.ter_advances_letter
+#print axioms P2P.Props.C07.blank_records_separated
+#print axioms P2P.Props.C07.blank_ter_witness
